@@ -142,7 +142,9 @@ def run_item(item):
     outs = []
     counters = {'sections': len(secs), 'determinism_reruns': 0}
     sets = {'modes': [mode], 'shapes': ['%s/%s' % SHAPES[k] for k in shape_idx]}
-    whole = runner.run_delta(args, whole_in)
+    whole = runner.run_delta(args, whole_in, trace=(seed % 4 == 0))
+    if whole.trace is not None:
+        sets['state_transitions'] = engine.transitions(whole.trace)
     c = crash_outcome(whole, ID, counters)
     if c is not None:
         return c
